@@ -284,7 +284,9 @@ def subHandle (m : Msg) : Outcome Proposal :=
 /-- Bitcoin `FungibleMessageHandler.HandleMessage` -/
 def btcHandle (m : Msg) : Outcome Proposal :=
   match m.typ, m.payload with
-  | .fungible, [.bytes a, .bytes r] => .ok ⟨m.id, .btc (beToNat a / 10 ^ 10 % 2 ^ 64) r, none⟩
+  | .fungible, [.bytes a, .bytes r] =>
+    -- (after `fix:` 97b0590) an amount that does not fit uint64 after the ÷10^10 rescaling is refused, not truncated
+    if beToNat a / 10 ^ 10 < 2 ^ 64 then .ok ⟨m.id, .btc (beToNat a / 10 ^ 10) r, none⟩ else .err
   | _, _ => .err
 
 /-! ## the relay pipeline as the driver runs it -/
